@@ -393,7 +393,9 @@ def main():
                 ob_results.append((b, o, r))
                 if os.environ.get('VERIF_VERBOSE'):
                     log('   .. %s %s %.0fs' % (o['id'], r.get('verdict'), r['wall_s']))
+            t_cb = time.time()
             diffs = [f.result() for f in diff_futs]
+            log('[%s] solver runs done at %.0fs, differential runs done at %.0fs' % (pid, t_cb - t_start, time.time() - t_start))
 
         # ---- evaluate solver results
         total_props = 0
@@ -403,7 +405,10 @@ def main():
             oid = o['id']
             props = r['props']
             total_props += len(props)
-            wit = [p for p in props if p['desc'].startswith('WITNESS:')]
+            wit_all = [p for p in props if p['desc'].startswith('WITNESS:')]
+            wit = [p for p in wit_all if p['desc'][8:] not in o.get('optional_witness', [])]
+            if not wit and any(p['status'] == 'FAILURE' for p in wit_all):
+                wit = [p for p in wit_all if p['status'] == 'FAILURE']
             eng = [p for p in props if p['desc'].startswith('ENGINE:') and p['status'] != 'SUCCESS']
             bad = [p for p in props if p['status'] == 'FAILURE' and not p['desc'].startswith('WITNESS:') and not p['desc'].startswith('ENGINE:')]
             bad.sort(key=lambda p: 0 if p['desc'].startswith('P:') else 2 if 'unwinding assertion' in p['desc'] else 1)
